@@ -154,6 +154,14 @@ def contracts(repo):
             out.append(_count_contiguous_ext(cb))  # about 40 s of VC generation per geometry: one geometry in the quick tier, all 8 in the thorough tier
     for i in range(32):
         out += _ext_bits(i)
+    if os.environ.get("VERIF_TIER_EFFECTIVE", "quick") == "thorough" or os.environ.get("VERIF_EXPERIMENT"):
+        # extended L2 run computation: about 80 s of VC generation and one query of more than a minute per geometry: thorough tier only
+        for cb, ext in _cases():
+            if ext:
+                out.append(_yield_runs_ext(cb))
+    for cb, ext in _cases():
+        if ext:
+            out.append(_read(cb, True))  # the consumer needs only the per-run contract (proved by _yield_runs in the thorough tier for these geometries)
     return out
 
 
@@ -308,9 +316,8 @@ def _yield_runs(cb):
 
 
 # ------------------------------------------------------------------------------------------------ _read: consumer of the run sequence
-class ConsumeModel(RunModel):
-    def __init__(self, cb):
-        super().__init__(cb)
+class ConsumeMixin:
+    def setup_consumer(self):
         self.dsize, self.darr = self.file_field("self.data_file", "data")
         self.bsize, self.barr = self.file_field("self.backing_file", "backing")
         self.truthy.update({"data": z3.BoolVal(True), "backing": self.has_backing})
@@ -346,7 +353,13 @@ class ConsumeModel(RunModel):
         return BytesV(ln, lambda k, desc=desc, oic=oic: self.INFL(desc, oic + k))
 
 
-def _read(cb):
+class ConsumeModel(RunModel, ConsumeMixin):
+    def __init__(self, cb):
+        RunModel.__init__(self, cb)
+        self.setup_consumer()
+
+
+def _read(cb, ext=False):
     offset0, length0 = z3.Ints("offset0 length0")
 
     def inv(eng, st):
@@ -367,8 +380,19 @@ def _read(cb):
                 z3.ForAll([K], z3.Implies(K >= 0, m.BACK(K) == z3.If(K < m.bsize, z3.Select(m.barr, K), 0))),  # backing image = its bytes, zero beyond its end (C07)
                 z3.ForAll([z3.Int("u"), K], z3.And(m.INFL(z3.Int("u"), K) >= 0, m.INFL(z3.Int("u"), K) <= 255))]
 
-    c = FnContract(FILE, "QCow2._read", ["C01", "C07", "C08", "C13"], lambda: ConsumeModel(cb), params=lambda m: {"self": ObjV("self"), "offset": IntV(offset0), "length": IntV(length0)},
-                   requires=requires, post=post, loops={("For", 0): LoopSpec(inv, shapes={"unalloc_zeroed": "local", "data": "local"})}, shifts=r"^(run_size|plen0|run_roff)!", case=_case_name(cb, False),
+    def mk_model():
+        if not ext:
+            return ConsumeModel(cb)
+
+        class ConsumeModelExt(ExtRunModel, ConsumeMixin):
+            pass
+
+        m = ConsumeModelExt(cb)
+        m.setup_consumer()
+        return m
+
+    c = FnContract(FILE, "QCow2._read", ["C01", "C07", "C08", "C13"], mk_model, params=lambda m: {"self": ObjV("self"), "offset": IntV(offset0), "length": IntV(length0)},
+                   requires=requires, post=post, loops={("For", 0): LoopSpec(inv, shapes={"unalloc_zeroed": "local", "data": "local"})}, shifts=r"^(run_size|plen0|run_roff)!", case=_case_name(cb, ext),
                    note="consumer of the run sequence of _yield_runs (per-run contract proved on the generator); backing file = stream of the backing image's guest bytes; inflate assumed (A3); host clusters inside the data file (A6)")
     c.select_terms = True
     return c
@@ -691,4 +715,182 @@ def _count_contiguous_ext(cb):
                                                                      "sc_type": "local", "sc_count": "local"})},
                    case=_case_name(cb, True), note="extended L2: entries and 64-bit bitmaps arbitrary; positions counted in sub-clusters")
     c.select_terms = False
+    return c
+
+
+# ------------------------------------------------------------------------------------------------ extended L2: _yield_runs / _read
+class ExtRunModel(ReadModel, ExtTables):
+    """QCow2 object for _yield_runs with extended L2 entries (sub-clusters)"""
+
+    def __init__(self, cb):
+        ReadModel.__init__(self, cb, True)
+        self.l2s = 1 << self.l2_bits
+        self.scs = self.cs // 32
+        self.L1 = z3.Function("L1", I, I)
+        self.E2 = z3.Function("L2", I, I, I)
+        self.B3 = z3.Function("L2B", I, I, I, I)  # (l2 table offset, index, bit) -> 0/1
+        self.Both2 = z3.Function("BothAllocAndZero", I, I, B)
+        self.Any2 = z3.Function("AnyAllocBit", I, I, B)
+        self.L1N = self.int_field("self.header.l1_size", 0, U32, None)
+        self.obj_field("self.header")
+        self.fields["self.l1_table"] = ObjV("self.l1_table")
+        self.items["self.l1_table"] = self.l1_get
+        self.methods[("self", "l2_table")] = self.open_l2
+        self.methods[("l2_table", "entry")] = self.entry
+        self.methods[("l2_table", "bitmap")] = self.bitmap
+        self.truthy["l2_table"] = z3.BoolVal(True)
+        self.has_backing = z3.Bool("has_backing_file")
+        self.fields["self.has_backing_file"] = BoolV(self.has_backing)
+        self.BACK = z3.Function("BackingGuest", I, I)
+        self.DATA = z3.Array("data_file", I, I)
+        self.INFL = z3.Function("Inflated", I, I, I)
+        self.G = z3.Function("QGuestX", I, I)
+        register_opaque("QGuestX", self.guest_def)
+        self.global_calls.update({"offset_to_l1_index": self.c_l1i, "offset_to_l2_index": self.c_l2i, "offset_to_sc_index": self.c_sci, "size_to_clusters": self.c_s2c,
+                                  "count_contiguous_subclusters": self.c_count, "get_subcluster_type": self.c_type})
+
+    # tables of the L2 table at offset `off`
+    def tbl(self, off):
+        m = self
+
+        class V_(ExtTables):
+            CT, SCT = m.CT, m.SCT
+            spec_cluster_type = m.spec_cluster_type
+
+            def E(self_, i):
+                return m.E2(off, i)
+
+            def B(self_, i, k):
+                return m.B3(off, i, k)
+
+            def BothF(self_, i):
+                return m.Both2(off, i)
+
+            def AnyF(self_, i):
+                return m.Any2(off, i)
+
+        return V_()
+
+    def axioms(self):
+        u, t = z3.Int("u"), T
+        return [z3.ForAll([t], z3.And(self.L1(t) >= 0, self.L1(t) <= U64)), z3.ForAll([u, t], z3.And(self.E2(u, t) >= 0, self.E2(u, t) <= U64)),
+                z3.ForAll([u, t], z3.And(*[z3.And(self.B3(u, t, k) >= 0, self.B3(u, t, k) <= 1) for k in range(64)])),
+                z3.ForAll([u, t], self.Both2(u, t) == z3.Or(*[z3.And(self.B3(u, t, k) == 1, self.B3(u, t, 32 + k) == 1) for k in range(32)])),
+                z3.ForAll([u, t], self.Any2(u, t) == z3.Or(*[self.B3(u, t, k) == 1 for k in range(32)]))]
+
+    def offs(self, e):
+        return bits(e, 9, 56) * 512
+
+    def guest_def(self, x):
+        c, o, f0 = ediv(x, z3.IntVal(self.cs))
+        sub, _r, f1 = ediv(o, z3.IntVal(self.scs))
+        q1, l2i, f2 = ediv(c, z3.IntVal(self.l2s))
+        l2off = self.offs(self.L1(q1))
+        tb = self.tbl(l2off)
+        e = self.E2(l2off, l2i)
+        S = self.SCT
+        t = z3.If(z3.Or(q1 >= self.L1N, l2off == 0), S["QCOW2_SUBCLUSTER_UNALLOCATED_PLAIN"], tb.T_sym(l2i, sub))
+        bk = z3.If(self.has_backing, self.BACK(x), 0)
+        val = z3.If(z3.Or(t == S["QCOW2_SUBCLUSTER_UNALLOCATED_PLAIN"], t == S["QCOW2_SUBCLUSTER_UNALLOCATED_ALLOC"]), bk,
+                    z3.If(z3.Or(t == S["QCOW2_SUBCLUSTER_ZERO_PLAIN"], t == S["QCOW2_SUBCLUSTER_ZERO_ALLOC"]), 0,
+                          z3.If(t == S["QCOW2_SUBCLUSTER_NORMAL"], z3.Select(self.DATA, self.offs(e) + o), self.INFL(e % (1 << 62), o))))
+        return val, [f0, f1, f2]
+
+    run_value = RunModel.run_value
+    l1_get = RunModel.l1_get
+    c_l1i = RunModel.c_l1i
+    c_l2i = RunModel.c_l2i
+    c_s2c = RunModel.c_s2c
+
+    def open_l2(self, eng, st, args, node):
+        st.ghost["cur_l2off"] = eng.as_int(args[0], st, node)
+        return ObjV("l2_table")
+
+    def entry(self, eng, st, args, node):
+        i = eng.as_int(args[0], st, node)
+        st.ghost["cur_idx"] = i
+        return IntV(self.E2(st.ghost["cur_l2off"], i))
+
+    def bitmap(self, eng, st, args, node):
+        from pyvc.engine import bitlist_value
+
+        i = eng.as_int(args[0], st, node)
+        bl = tuple(self.B3(st.ghost["cur_l2off"], i, k) for k in range(64))
+        return IntV(bitlist_value(bl), (0, 64), bl)
+
+    def c_sci(self, eng, st, args, node):
+        x = eng.as_int(args[1], st, node)
+        eng.pre(st, x >= 0, node)
+        qs, _r = eng.euclid(st, x, z3.IntVal(self.scs))
+        _q, sci = eng.euclid(st, qs, z3.IntVal(32))
+        return IntV(sci)  # (x div subcluster_size) mod 32: contract of offset_to_sc_index (contracts/qcow2.py)
+
+    def c_type(self, eng, st, args, node):
+        e, s = eng.as_int(args[1], st, node), eng.as_int(args[3], st, node)
+        eng.pre(st, z3.And(e >= 0, e <= U64, s >= 0, s <= 31), node)
+        tb = self.tbl(st.ghost["cur_l2off"])
+        return IntV(tb.T_sym(st.ghost["cur_idx"], s))  # union of the 32 per-index contracts proved above
+
+    def c_count(self, eng, st, args, node):
+        """contract of count_contiguous_subclusters for extended entries (proved above)"""
+        nb, s0, i0 = eng.as_int(args[1], st, node), eng.as_int(args[2], st, node), eng.as_int(args[4], st, node)
+        eng.pre(st, z3.And(nb >= 1, s0 >= 0, s0 <= 31, i0 >= 0, i0 + nb <= self.l2s), node, tag="count_contiguous.requires")
+        off = st.ghost["cur_l2off"]
+        tb = self.tbl(off)
+        t0 = tb.T_sym(i0, s0)
+        S = self.SCT
+        eng.may_raise("Error", st, t0 != S["QCOW2_SUBCLUSTER_INVALID"], node)
+        r = fresh("sc_count")
+        J = z3.Int("j")
+        chk = z3.Or(t0 == S["QCOW2_SUBCLUSTER_NORMAL"], t0 == S["QCOW2_SUBCLUSTER_ZERO_ALLOC"], t0 == S["QCOW2_SUBCLUSTER_UNALLOCATED_ALLOC"])
+
+        def covered(Jv):
+            return z3.And(*[z3.Implies(z3.Or(Jv > 0, k >= s0), tb.T_at(i0 + Jv, k) == t0) for k in range(32)], z3.Implies(chk, self.offs(self.E2(off, i0 + Jv)) == self.offs(self.E2(off, i0)) + Jv * self.cs))
+
+        full, rest, f = ediv(s0 + r, z3.IntVal(32))
+        st.hyps.append(z3.And(f, r >= 1, s0 + r <= 32 * nb, z3.Implies(t0 == S["QCOW2_SUBCLUSTER_COMPRESSED"], r == 32 - s0)))
+        st.hyps.append(z3.ForAll([J], z3.Implies(z3.And(0 <= J, J < full), covered(J))))
+        st.hyps.append(z3.Implies(rest > 0, z3.And(*[z3.Implies(z3.And(z3.Or(full > 0, k >= s0), k < rest), tb.T_at(i0 + full, k) == t0) for k in range(32)],
+                                                   z3.Implies(chk, self.offs(self.E2(off, i0 + full)) == self.offs(self.E2(off, i0)) + full * self.cs))))
+        st.anchor(full, cls="unit")
+        return IntV(r)
+
+
+def _yield_runs_ext(cb):
+    offset0, length0 = z3.Ints("offset0 length0")
+
+    def inv(eng, st):
+        offset, length = st.env["offset"].e, st.env["length"].e
+        plen = st.ghost["plen"]
+        return z3.And(offset >= offset0, offset + length == offset0 + length0, plen == offset - offset0, length >= 0)
+
+    def on_yield(eng, st, v, node):
+        m = eng.model
+        sc_type, roff, hoff, n = (eng.as_int(x, st, node) for x in v.items)
+        plen = st.ghost["plen"]
+        eng.ob("yield.run_starts_where_the_previous_one_ended", st, z3.And(roff == offset0 + plen, n >= 1, n <= length0 - plen), node)
+        kk = fresh("kk")
+        o0q, o0, f_o = ediv(roff, z3.IntVal(m.cs))
+        j, rr, f_j = ediv(o0 + kk, z3.IntVal(m.cs))
+        sub, _sr, f_s = ediv(rr, z3.IntVal(m.scs))
+        s2 = st.fork()
+        s2.hyps += [f_o, f_j, f_s, kk >= 0, kk < n]
+        s2.anchor(j, cls="unit")
+        s2.anchor(kk, cls="byte")
+        eng.ob("yield.run_bytes_are_the_guest_bytes", s2, m.G(roff + kk) == m.run_value(sc_type, roff, hoff, kk), node)
+        eng.ob("yield.compressed_runs_stay_inside_one_cluster", st, z3.Implies(sc_type == m.SCT["QCOW2_SUBCLUSTER_COMPRESSED"], z3.And(o0 + n <= m.cs, hoff >= 0, hoff < (1 << 62))), node)
+        eng.ob("yield.type_is_a_valid_subcluster_type", st, z3.And(sc_type >= 0, sc_type <= 6, sc_type != m.SCT["QCOW2_SUBCLUSTER_INVALID"]), node)
+        st.hyps.append(f_o)
+        st.ghost["plen"] = plen + n
+
+    def post(eng, st, rv):
+        return [("runs_cover_the_request_exactly", st.ghost["plen"] == length0)]
+
+    c = FnContract(FILE, "QCow2._yield_runs", ["C01", "C08"], lambda: ExtRunModel(cb), params=lambda m: {"self": ObjV("self"), "offset": IntV(offset0), "length": IntV(length0)},
+                   requires=lambda m: [offset0 >= 0, length0 >= 0] + m.axioms(), post=post, on_yield=on_yield, ghost=lambda m: {"plen": z3.IntVal(0)}, raises={"Error": None},
+                   loops={("While", 0): LoopSpec(inv, lambda eng, st: st.env["length"].e, ghost_havoc={"plen": "int"},
+                                                 shapes={k: "local" for k in ("sc_type", "host_offset", "read_count", "l1_index", "l2_index", "sc_index", "offset_in_cluster", "bytes_needed", "bytes_available", "l2_offset",
+                                                                              "l2_table", "l2_entry", "l2_bitmap", "host_cluster_offset", "nb_clusters", "sc_count")})},
+                   case=_case_name(cb, True), note="extended L2: generator contract at sub-cluster granularity; entries and bitmaps arbitrary; an invalid bitmap raises Error")
+    c.select_terms = True
     return c
